@@ -74,6 +74,11 @@ def prepare(tier):  # pylint: disable=unused-argument
     return None
 
 
+def _late_prepare():
+    from simverif.props import c14
+    c14.set_field_sites()
+
+
 # ---------------------------------------------------------------- subjects
 
 def _build_subject(spec):
@@ -240,6 +245,53 @@ def _other_value(current):
     return None
 
 
+def edit_field(obj, rng, depth=0):
+    """A caller edits a message before using it: assign another valid value to one randomly chosen public field
+    (toggle a member of a flag set, another enum member, a nearby integer, a flipped bool, longer bytes), or edit
+    a nested message.  Returns a description or None."""
+    if depth > 3 or not attr.has(type(obj)):
+        return None
+    fields = [f for f in attr.fields(type(obj)) if not f.name.startswith('_')]
+    rng.shuffle(fields)
+    for field in fields:
+        value = getattr(obj, field.name, None)
+        new = None
+        if isinstance(value, (set, frozenset)):
+            members = None
+            for item in value:
+                if isinstance(item, enum.Enum):
+                    members = list(type(item))
+                    break
+            if members is None:
+                from simverif.props import c14
+                enum_class = c14._enum_of_validator(getattr(field.validator, 'member_validator', field.validator))  # pylint: disable=protected-access
+                members = list(enum_class) if enum_class else None
+            if members:
+                member = rng.choice(members)
+                if member in value:
+                    value.discard(member)
+                    return '%s.discard(%s)' % (field.name, member.name)
+                value.add(member)
+                return '%s.add(%s)' % (field.name, member.name)
+            continue
+        other = _other_value(value)
+        if isinstance(value, enum.Enum):
+            members = [m for m in type(value) if m is not value]
+            other = (rng.choice(members), ) if members else None
+        if other is not None:
+            new = other[0]
+            try:
+                setattr(obj, field.name, new)
+                return 'setattr(%s)' % field.name
+            except Exception:  # pylint: disable=broad-except
+                continue
+        if attr.has(type(value)) and not isinstance(value, enum.Enum):
+            what = edit_field(value, rng, depth + 1)
+            if what:
+                return '%s.%s' % (field.name, what)
+    return None
+
+
 # ---------------------------------------------------------------- construction with defaults
 
 def _construct_default(cls, donor=None):
@@ -310,8 +362,22 @@ def generate(rng, index, tier, extra):  # pylint: disable=unused-argument
         return {'kind': 'buffer', 'cls': path, 'seed': rng.randrange(max(1, len(seeds))), 'made': made,
                 'entry': rng.choice(('parse_mutable', 'parse_mutable', 'parse_immutable', 'parse_exact_size')),
                 'tail': bytes(rng.getrandbits(8) for _ in range(rng.choice((0, 0, 3, 8)))).hex(), 'events': events}
-    names = sorted(_attrs_classes())
-    return {'kind': 'defaults', 'cls': rng.choice(names), 'twin': rng.random() < 0.3}
+    if roll < 0.9:
+        names = sorted(_attrs_classes())
+        return {'kind': 'defaults', 'cls': rng.choice(names), 'twin': rng.random() < 0.3}
+    # a caller edits a parsed / built message in place, then observes it
+    sub = rng.random()
+    from simverif.props import c14
+    sites = c14.set_field_sites()
+    if sub < 0.4 and sites:
+        spec = ['corpus', rng.choice(sites)[0], rng.randrange(64)]
+    elif sub < 0.7:
+        spec = ['factory', rng.choice(FACTORY_SUBJECTS), rng.getrandbits(48)]
+    else:
+        spec = ['corpus', rng.choice(paths), rng.randrange(64)]
+    calls = [rng.choice(('compose', 'compose', 'as_json', 'as_markdown', 'ja3', 'hassh', 'key_tag', 'fingerprints', '_asdict'))
+             for _ in range(rng.choice((2, 3, 4, 6)))]
+    return {'kind': 'observe', 'subject': spec, 'calls': calls, 'edits': [rng.getrandbits(32) for _ in range(rng.choice((1, 1, 2, 3)))]}
 
 
 # ---------------------------------------------------------------- execution
@@ -319,7 +385,8 @@ def generate(rng, index, tier, extra):  # pylint: disable=unused-argument
 def needs_isolation(doc):
     """Runs that edit objects in place execute in a forked child: a shared default (the very defect
     this property is about) would otherwise leak from one run into the next."""
-    return doc['kind'] in ('defaults', 'buffer') or (doc['kind'] == 'observe' and doc['subject'][0] != 'corpus')
+    return doc['kind'] in ('defaults', 'buffer') or (
+        doc['kind'] == 'observe' and (doc['subject'][0] != 'corpus' or bool(doc.get('edits'))))
 
 
 def execute(doc):
@@ -361,6 +428,14 @@ def _exec_observe(doc, res):
         res.sched_sig = ('observe', tuple(spec[:2]), 'no-seed')
         return
     name = type(obj).__name__
+    edits = []
+    for edit_seed in doc.get('edits', ()):
+        import random as _random
+        what = edit_field(obj, _random.Random(edit_seed))
+        if what:
+            edits.append(what)
+            res.event(name, 'edit', what)
+            res.stats['probe.object_edited_before_observing'] += 1
     snapshot = canon(obj)
     available = _observers_of(obj)
     first = {}
@@ -587,6 +662,8 @@ def shrink(doc, sig, budget):
 
     if doc['kind'] == 'observe':
         doc['calls'] = core.ddmin_list(doc['calls'], lambda c: bool(c) and test_with(calls=c), budget)
+        if doc.get('edits'):
+            doc['edits'] = core.ddmin_list(doc['edits'], lambda c: test_with(edits=c), budget)
     elif doc['kind'] == 'buffer':
         doc['events'] = core.ddmin_list(doc['events'], lambda c: test_with(events=c), budget)
         if doc.get('tail') and test_with(tail=''):
@@ -608,7 +685,7 @@ def check(tier, seed):
         batch, RULE,
         fault_kinds=('observer_call_failed', 'buffer_overwrite', 'buffer_fill', 'buffer_clear', 'buffer_extend',
                      'buffer_reverse', 'default_mutated_in_place'),
-        probes=('compose_failed_at_cipher_suite_ceiling', 'object_edited_while_buffer_watched'),
+        probes=('compose_failed_at_cipher_suite_ceiling', 'object_edited_while_buffer_watched', 'object_edited_before_observing'),
         components={
             'real': ['observers of every corpus class (compose, ja3, hassh, fingerprints, key_tag, as_json, as_markdown, ...)',
                      'parse entry points on bytes and bytearray inputs', 'attrs constructors with default arguments'],
